@@ -178,16 +178,17 @@ class RandomWalk(Decider):
 
 class PCT(Decider):
     """
-    PCT-style: random distinct priorities, the highest-priority runnable thread
-    runs; at d change points (steps drawn uniformly from [0, est_steps)) the
-    running thread's priority drops below every other.
+    PCT-style: random distinct priorities (drawn from prio_seed in spawn
+    order), the highest-priority runnable thread runs; at each change point (a
+    step number) the running thread's priority drops below every other.  With
+    no change points this is a calibration run that measures the step count.
     """
 
-    def __init__(self, rng, depth, est_steps):
-        self.rng = rng
-        self.points = sorted(
-            rng.randrange(max(1, est_steps)) for _ in range(depth)
-        )
+    def __init__(self, prio_seed, points):
+        import random
+
+        self.rng = random.Random(prio_seed)
+        self.points = sorted(points)
         self._pi = 0
         self._low = 0
         self.next_line_step = self.points[0] if self.points else INF
